@@ -505,7 +505,7 @@ func init() {
 	core.Register(&core.Prop{
 		ID:    "C08",
 		Level: "exploration",
-		Rule:  "JSON: every value to depth 3 (thorough 4; width 2, children from a stride of the previous level plus all container corner cases) over scalars {null,true,false,0,-1.5,1e2,1e19,12345678901234567890,0.1,\"\",\"a\",\"é\",\"\\\"\",\"\\u0000\"} and distinct keys from {\"\",a,b}, read as the whole document, as an element of a top-level array, and copied by the `copy` custom_func through a full Transform; the tree converted back (J2NodeToInterface with type flags) must deep-equal encoding/json's decoding. XML: every element tree with 1-2 elements (3, thorough 4, with reduced alphabets) x 8 namespace decorations (default, prefixed, redeclared, undeclared, two prefixes for one URI, prefix rebound, default+prefix same URI) x attributes {none,k,p:k,xml:lang,k+p:k,empty} x content {none,text,whitespace,entities,CDATA,comment,PI,text-comment-text,text-CDATA-text}; the node tree must equal, token by token, what encoding/xml reports (Token for URIs/values/chardata, RawToken for the prefix written in the document), attributes first; distinct by (kind, document)",
+		Rule:  "JSON: every value to depth 3 (thorough 4; width 2, children from a stride of the previous level plus all container corner cases) over scalars {null,true,false,0,-1.5,1e2,1e19,12345678901234567890,0.1,\"\",\"a\",\"é\",\"\\\"\",\"\\u0000\"} and distinct keys from {\"\",a,b}, read as the whole document, as an element of a top-level array, and copied by the `copy` custom_func through a full Transform; the tree converted back (J2NodeToInterface with type flags) must deep-equal encoding/json's decoding. XML: every element tree with 1-2 elements (3, thorough 4, with reduced alphabets) x 8 namespace decorations (default, prefixed, redeclared, undeclared, two prefixes for one URI, prefix rebound, default+prefix same URI) x attributes {none,k,p:k,xml:lang,k+p:k,empty} x content {none,text,whitespace,entities,CDATA,comment,PI,text-comment-text,text-CDATA-text}; the node tree must equal, token by token, what encoding/xml reports (Token for URIs/values/chardata, RawToken for the prefix written in the document), attributes first; distinct by (kind, document); every XML document also read record by record (target /*/*), each record tree = the subtree of the whole-document tree; big JSON documents (12 000 scalars, 3 000 rows, arrays of arrays, nesting 2 000 deep)",
 		Assumptions: []string{
 			"encoding/json and encoding/xml are the reference decoders; objects with duplicate keys are outside the alphabet",
 		},
